@@ -365,7 +365,23 @@ func (g *G) Expr(t T, depth int) string {
 			return g.lit(TFloat)
 		}
 	case TBool:
-		switch g.r.Intn(12) {
+		switch g.r.Intn(13) {
+		case 12:
+			// function values compared with themselves and with another instance of the same literal (whether the
+			// literal captures anything depends on where the program stands)
+			g.f("eq:functions")
+			op := pick(g.r, []string{"==", "!="})
+			inner := "func() { return " + g.Expr(TInt, 0) + " }"
+			switch g.r.Intn(4) {
+			case 0:
+				return "(func(fa) { return fa " + op + " fa })(" + inner + ")"
+			case 1:
+				return "(func(mk) { return mk() " + op + " mk() })(func() { return " + inner + " })"
+			case 2:
+				return "(func(mk) { fa := mk(); return [fa] " + op + " [fa] })(func() { return " + inner + " })"
+			default:
+				return "(func(fa, fb) { return fa " + op + " fb || {k: fa} " + op + " {k: fa} })(len, " + inner + ")"
+			}
 		case 0, 1:
 			op := pick(g.r, []string{"<", "<=", ">", ">=", "==", "!="})
 			g.f("cmp:" + op)
